@@ -69,6 +69,41 @@ def alloc_chain(pid, macro, seed, length):
     return prog
 
 
+def alloc_singles(tier, seed, start):
+    """every non-allocating operator alone on every input type it types on, instantly and as the first operator of a later step, every callback
+    capturing a symbolic scalar (so that a boxed callback would be a real allocation): zero allocations by the macro"""
+    from .gen_c01 import typeable_inputs
+    from .dsl import OPS
+    ps = []
+    i = start
+    for nm in NOALLOC_OPS:
+        for t in typeable_inputs(nm, None):
+            for deferred in (False, True):
+                i += 1
+                if tier == "quick" and (i + seed) % 3 and nm != "??":
+                    continue
+                pid = "p%04d" % i
+                ctx = Ctx(rng(seed, pid), itlen=2)
+                inp = ctx.value(t)
+                st = OPS[nm](ctx, t)
+                if st is None or "Vec<" in inp or "Vec<" in st.mac:
+                    continue        # (a Vec built or named by the USER's expressions is the user's allocation)
+                st.deferred = deferred
+                chain, out = [st], st.out
+                if has_iter(out):
+                    f_ = op_fold(ctx, out)
+                    chain.append(f_)
+                    out = f_.out
+                prog = build(pid, "join", ctx, inp, chain, out, group="alloc/single", prop="C19")
+                lines = prog.body.splitlines()
+                k = next(j for j, l in enumerate(lines) if l.strip().startswith("let m = "))
+                lines.insert(k + 1, "    vassert!(allocs() == 0, \"C19[%s]: the sequential macro performs no heap allocation of its own\");" % pid)
+                prog.body = "\n".join(lines)
+                prog.stubs = STUBS
+                ps.append(prog)
+    return ps, i
+
+
 def witness(pid):
     L = ["let x = u();",
          "let r = join! { x -> |v: u8| Box::new(v), x };",
@@ -148,6 +183,8 @@ def programs(tier, seed):
     for macro in ("join", "try_join"):
         i += 1
         ps.append(borrow2("p%04d" % i, macro))
+    a, i = alloc_singles(tier, seed, 1000)
+    ps += [p_ for p_ in a if not (tier == "quick" and p_.weight > 14)]
     return ps
 
 
